@@ -185,6 +185,11 @@ Proof.
   intros _. split; assumption.
 Qed.
 
+Lemma find_best_res_iff U ty first d : find_best_start_depot_res nw U ty first = Ok d <-> find_best_start_depot nw U ty first = Ok d.
+Proof.
+  unfold find_best_start_depot_res, find_best_start_depot.
+  destruct (find _ _); cbn [ok_or_err unwrap_opt]; split; intros H; inversion H; reflexivity.
+Qed.
 Lemma find_best_can_spawn U ty first d : find_best_start_depot nw U ty first = Ok d -> can_depot_spawn nw U d ty = true.
 Proof.
   unfold find_best_start_depot. intros H. apply unwrap_opt_ok in H. apply find_some in H. tauto.
@@ -410,7 +415,7 @@ Proof.
       * match goal with |- context [if ?c then _ else _] => destruct c end; [|exact OC'].
         change (removelast (os :: b :: r)) with (os :: removelast (b :: r)). exact OC'.
   - intros H L. right. cbn [bind] in H. mon H. mon E. inversion E; subst a; clear E.
-    apply find_best_can_spawn in E0.
+    apply find_best_res_iff in E0. apply find_best_can_spawn in E0.
     destruct (is_depot (nd nw (last (first :: rest) first))).
     + inversion H; subst. exact E0.
     + mon H. inversion H; subst. exact E0.
